@@ -66,6 +66,15 @@ def isRet : IRes → Bool
 
 def le (r : IRes) : Bool := r == .rank .lt || r == .rank .eq
 
+/-- how many collection levels a traversal of the value enters (associations are read through
+    their getters and are not a level) -/
+partial def levels : Val → Nat
+  | .arr _ _ xs => 1 + xs.foldl (fun m x => Nat.max m (levels x)) 0
+  | .coll _ xs => 1 + xs.foldl (fun m x => Nat.max m (levels x)) 0
+  | .gomap _ _ es => 1 + es.foldl (fun m e => Nat.max m (Nat.max (levels e.1) (levels e.2))) 0
+  | .assoc k v => Nat.max (levels k) (levels v)
+  | _ => 0
+
 /-- first failing check of a list of (name, ok) -/
 def firstFail (l : List (String × Bool)) : Option String := (l.find? (fun p => !p.2)).map (·.1)
 
@@ -92,9 +101,13 @@ def collLine (j : Json) : String :=
   let depthsOk := ["rab", "rba", "raa", "rbb", "cab", "cba", "caa"].all (fun k => nat (fld j k) "d1" == d0)
   let noCrash := [rab, rba, raa, rbb, cab, cba, caa].all (fun r => r != .hang && r != .otherPanic)
   let allRet := [rab, rba, raa, rbb, cab, cba, caa].all isRet
+  -- the depth-limit panic is for values nested beyond the limit only (fresh collator: d0 = 0)
+  let withinLimit := d0 == 0 && levels a ≤ max && levels b ≤ max
+  let noEarlyDepth := !withinLimit || [rab, rba, raa, rbb, cab, cba, caa].all (fun r => r != .depth)
   let spec : Option String :=
     if pid == "C07" then firstFail [
       ("no-hang-or-crash", noCrash),
+      ("depth-panic-within-limit", noEarlyDepth),
       ("depth-restored", depthsOk),
       ("refl", !isRet raa || raa == .rank .eq), ("refl", !isRet rbb || rbb == .rank .eq),
       ("mirror", !(isRet rab && isRet rba) || (match rab, rba with | .rank x, .rank y => y == x.flip | _, _ => true)),
@@ -102,6 +115,7 @@ def collLine (j : Json) : String :=
       ("independent-of-copies-and-history", max != Generated.collatorDefaultMaximum || !(isRet rab && isRet rab2) || rab == rab2)]
     else firstFail [
       ("no-hang-or-crash", noCrash),
+      ("depth-panic-within-limit", noEarlyDepth),
       ("depth-restored", depthsOk),
       ("refl", !isRet caa || caa == .eq true),
       ("symm", !(isRet cab && isRet cba) || cab == cba),
